@@ -3,7 +3,8 @@
 Engine DEFX. (1) Every closure of the C15 program space (quick: a stratified third; thorough: all
 with <= 3 definitions) plus the extra programs and a packed C04-style program is compiled twice in
 SEPARATE processes - different PYTHONHASHSEED, different working directory, different source and
-output directories - to all six outputs with the real `black`: byte equality (the info file's
+output directories, root file named by an absolute path in one run and by a relative path (from
+the directory above the sources) in the other - to all six outputs with the real `black`: byte equality (the info file's
 first comment line names the output location and is normalised). (2) The combined-YAML output is
 recompiled through the command line entry point and must give the same ids, hashes, sizes,
 layouts and constants as the original closure. (3) core_defs.yaml (+ data_logger.yaml,
@@ -62,7 +63,7 @@ def run_group(args) -> List[Dict[str, Any]]:
             for k, cl in (list(enumerate(group)) if run == 0 else list(enumerate(group))[::-1]):
                 cases.append({"id": k, "files": cl["files"], "src": os.path.join(base, f"run{run}", f"s{k}", "x" * run, "src"),
                               "out": os.path.join(base, f"run{run}", f"o{k}" + ("_other" * run)), "name": "gen", "kw": cl["kw"], "black": True})
-            spec = {"cwd": os.path.join(base, cwd), "cases": cases}
+            spec = {"cwd": os.path.join(base, cwd), "cases": cases, "relative": run == 1}
             sp = os.path.join(base, f"spec{run}.json")
             with open(sp, "w") as f:
                 json.dump(spec, f)
